@@ -170,7 +170,8 @@ theorem splitParen_paren (st : PState) (ps : List (List Char)) (paren : Bool) (h
 read as the string literal or as a split rendering of it -/
 theorem K_str (st : PState) (TS : List Tok) (lt slt : Option Tok) (s0 : List Char) (paren : Bool) (hK : K st TS lt)
     (hr : lt = none ∨ lt = slt) (hsafe : paren = true → ∀ t0, slt = some t0 → adjOK t0 .lp = true) :
-    ∃ ts lt', K (breakLongStr st s0 paren) (TS ++ ts) lt' ∧ (lt' = none ∨ lt' = some (.str (escQ s0))) ∧ StrSplit (escQ s0) ts := by
+    ∃ ts lt', K (breakLongStr st s0 paren) (TS ++ ts) lt' ∧ (lt' = none ∨ lt' = some (.str (escQ s0))) ∧ StrSplit (escQ s0) ts
+      ∧ (lt' ≠ none → (breakLongStr st s0 paren).text.getLast? = some '\'') := by
   have hinvF := inv_breakLongStr st s0 paren hK.1
   unfold breakLongStr at hinvF ⊢
   simp only [] at hinvF ⊢
@@ -182,14 +183,16 @@ theorem K_str (st : PState) (TS : List Tok) (lt slt : Option Tok) (s0 : List Cha
     · have hlt : lt = none := hK.2.2 (hK.1 hsl)
       obtain ⟨lt', hK', hr'⟩ := K_raw st TS lt none ⟨false, 0, [(.str (escQ s0), 0)]⟩ hK (Or.inl hlt)
         ⟨wf_str ⟨s0, rfl⟩, fun t0 h0 => by simp [AFrag.prev] at h0, trivial⟩
-      refine ⟨[.str (escQ s0)], lt', ?_, ?_, StrSplit.one⟩
+      refine ⟨[.str (escQ s0)], lt', ?_, ?_, StrSplit.one, fun _ => ?_⟩
       · simpa [AFrag.text, AFrag.toks, bodyText, blanks, sp, hsl, List.append_assoc] using hK'
       · simpa [AFrag.flow, AFrag.prev, endAfter, nxt] using hr'
+      · simp only [text_raw, ← List.append_assoc]; rw [List.getLast?_append]; rfl
     · obtain ⟨lt', hK', hr'⟩ := K_raw st TS lt slt ⟨false, 1, [(.str (escQ s0), 0)]⟩ hK hr
         ⟨wf_str ⟨s0, rfl⟩, fun t0 h0 => by simp [AFrag.prev] at h0, trivial⟩
-      refine ⟨[.str (escQ s0)], lt', ?_, ?_, StrSplit.one⟩
+      refine ⟨[.str (escQ s0)], lt', ?_, ?_, StrSplit.one, fun _ => ?_⟩
       · simpa [AFrag.text, AFrag.toks, bodyText, blanks, sp, hsl, List.append_assoc] using hK'
       · simpa [AFrag.flow, AFrag.prev, endAfter, nxt] using hr'
+      · simp only [text_raw, ← List.append_assoc]; rw [List.getLast?_append]; rfl
   · -- split
     rename_i hlong
     simp only [hlong, if_false] at hinvF
@@ -239,7 +242,7 @@ theorem K_str (st : PState) (TS : List Tok) (lt slt : Option Tok) (s0 : List Cha
     by_cases hpar : splitParen st (p1 :: ps') paren = true
     · have hpar' : splitParen st (splitDots (escQ s0)) paren = true := by rw [hps]; exact hpar
       have hrp := (hws.tok .rp (reads_of_wf _ trivial) (by decide) (fun t0 h0 => by cases h0)).rp_none
-      refine ⟨[.lp] ++ sumToks (gs ++ [cur']) ++ [.rp], none, ⟨?_, ?_, fun _ => rfl⟩, Or.inl rfl, ?_⟩
+      refine ⟨[.lp] ++ sumToks (gs ++ [cur']) ++ [.rp], none, ⟨?_, ?_, fun _ => rfl⟩, Or.inl rfl, ?_, fun h => absurd rfl h⟩
       · simpa [hpar] using hinvF
       · simp only [hpar, if_true, text_raw, htext]
         have : TS ++ ([Tok.lp] ++ sumToks (gs ++ [cur']) ++ [Tok.rp]) = TS1 ++ closed gs ++ [Tok.str cur'] ++ [Tok.rp] := by
@@ -254,7 +257,7 @@ theorem K_str (st : PState) (TS : List Tok) (lt slt : Option Tok) (s0 : List Cha
               · simp at hg; subst hg; exact hc')
         simpa using this
     · have hpar' : ¬ splitParen st (splitDots (escQ s0)) paren = true := by rw [hps]; exact hpar
-      refine ⟨sumToks (gs ++ [cur']), none, ⟨?_, ?_, fun _ => rfl⟩, Or.inl rfl, ?_⟩
+      refine ⟨sumToks (gs ++ [cur']), none, ⟨?_, ?_, fun _ => rfl⟩, Or.inl rfl, ?_, fun h => absurd rfl h⟩
       · simpa [hpar] using hinvF
       · simp only [hpar, text_raw, htext]
         have : TS ++ sumToks (gs ++ [cur']) = TS1 ++ closed gs ++ [Tok.str cur'] := by
@@ -351,7 +354,7 @@ theorem K_runS (xs : List SeqEl) : ∀ (st : PState) (TS : List Tok) (lt slt : O
       · simpa [run, SeqEl.frag, List.append_assoc] using hK2
       · simpa [SeqEl.toks] using (Joined.refl a.toks).append hj
     | strF s p =>
-      obtain ⟨ts1, lt1, hK1, hr1, hsp⟩ := K_str st TS lt slt s p hK hr hs.1
+      obtain ⟨ts1, lt1, hK1, hr1, hsp, _⟩ := K_str st TS lt slt s p hK hr hs.1
       obtain ⟨ts2, lt2, hK2, hr2, hj⟩ := ih (breakLongStr st s p) (TS ++ ts1) lt1 (some (.str (escQ s))) hK1 hr1 hs.2
       refine ⟨ts1 ++ ts2, lt2, ?_, hr2, ?_⟩
       · simpa [run, SeqEl.frag, step, List.append_assoc] using hK2
